@@ -12,6 +12,8 @@
              decls    the class's ProcessDesc / PacketDesc declarations, each with res = what it resolved to
              svcs     the class's ServiceDesc declarations
              init     [status] "ok" | "incompatible" | "exception" | "stall"
+             probe    the class is a probe class made of TLC-generated declarations (TermDeclScripts): only
+                      R1 / R2 are judged on its declarations
              table    Terminal.pdos after parse_pdos; bits = what parse_pdos returned; sizes = pdo_out_sz /
                       pdo_in_sz; smregs = the simulated terminal's sync-manager registers afterwards;
                       assigned = 0x1C12 / 0x1C13 in the simulated terminal's dictionary afterwards
@@ -63,6 +65,19 @@ InitCode(r, e, lay) ==
     ELSE IF r.init.status = "ok" THEN "ok"
     ELSE IF ~Representable(lay) THEN "unrepresentable" ELSE "failed"
 
+(* remark (not judged): the SII description types the entry as a signed integer (CoE basic data types 2, 3, 4,
+   0x15), the variable takes its format from the mapping alone and reads it unsigned                     *)
+SiiTypes(e, idx, sub) == LET es == EntsOf(e.rx, 1, <<>>) \o EntsOf(e.tx, 1, <<>>) IN
+    {es[k].dtype : k \in {j \in 1 .. Len(es) : es[j].idx = idx /\ es[j].sub = sub}}
+SignedAsUnsigned(e, d, o) ==
+    /\ d.kind = "process" /\ d.ov.k = "none" /\ o.status = "ok"
+    /\ Len(o.fmtc) = 1 /\ o.fmtc[1] \in {66, 72, 73, 81}
+    /\ SiiTypes(e, EffIdx(d), d.sub) \cap {2, 3, 4, 21} # {}
+
+(* a declaration that is not where the description puts it, but where the recognised alternative reading of
+   the description (sm255) puts it *)
+DeclOrAlt(v, alt, d) == IF v[1] = "ok" THEN v
+                        ELSE IF DeclVerdict(alt, d, d.res)[1] = "ok" THEN <<"sm255", "n/a">> ELSE v
 Judged(c, r, e, lay, alt, m, ran) ==
     [wf |-> TRUE, matching |-> m, source |-> IF e.mbx THEN "coe" ELSE "sii",
      outbits |-> lay.out.bits, inbits |-> lay.inp.bits,
@@ -80,15 +95,25 @@ Judged(c, r, e, lay, alt, m, ran) ==
      assign |-> IF ~ran THEN "n/a"
                 ELSE IF AsgOK(r.outp, r.assigned.out) /\ AsgOK(r.inp, r.assigned.inp) THEN "ok" ELSE "bad",
      decls |-> [k \in 1 .. Len(r.decls) |->
-                  IF ran /\ m THEN DeclVerdict(lay, r.decls[k], r.decls[k].res) ELSE <<"free", "n/a">>],
-     overlaps |-> IF ran /\ m THEN Overlaps(r.decls) ELSE {},
+                  IF ran /\ m THEN DeclOrAlt(DeclVerdict(lay, r.decls[k], r.decls[k].res), alt, r.decls[k])
+                  ELSE <<"free", "n/a">>],
+     overlaps |-> IF ran /\ m /\ ~r.probe THEN Overlaps(r.decls) ELSE {},
+     signs |-> [k \in 1 .. Len(r.decls) |-> ran /\ m /\ SignedAsUnsigned(e, r.decls[k], r.decls[k].res)],
      svcs |-> [k \in 1 .. Len(r.svcs) |->
                   IF m THEN <<r.svcs[k].idx + r.svcs[k].off, r.svcs[k].sub>> \in KeySet(c) ELSE TRUE]]
 
 JudgeL(c, r, e, lay, alt) == Judged(c, r, e, lay, alt, Matching(r.cls, e.id),
                                     r.init.status = "ok" /\ ~Refuses(r.cls, e.id))
+(* a class that has to refuse the device: nothing but the refusal is demanded *)
+Refusal(r) ==
+    [wf |-> TRUE, matching |-> FALSE, source |-> "n/a", outbits |-> -1, inbits |-> -1,
+     init |-> IF r.init.status = "incompatible" THEN "refused" ELSE "notrefused",
+     table |-> "n/a", sizes |-> "n/a", regs |-> "n/a", assign |-> "n/a",
+     decls |-> [k \in 1 .. Len(r.decls) |-> <<"free", "n/a">>], overlaps |-> {},
+     signs |-> [k \in 1 .. Len(r.decls) |-> FALSE], svcs |-> [k \in 1 .. Len(r.svcs) |-> TRUE]]
 Verdict(c, r, e) ==
-    IF ~RunWF(c, r, e) THEN [wf |-> FALSE, matching |-> Matching(r.cls, e.id)]
+    IF Refuses(r.cls, e.id) THEN Refusal(r)
+    ELSE IF ~RunWF(c, r, e) THEN [wf |-> FALSE, matching |-> Matching(r.cls, e.id)]
     ELSE JudgeL(c, r, e, RunLayout(c, r, e), AltLayout(c, r, e))
 
 (* ---- remarks on the device's two descriptions of itself (not a judgement of the code) ---- *)
